@@ -100,6 +100,12 @@ def variants(quick, rng):
     jobs.append({"what": "DNA strand without N9 of 1 and O4' of 3", "text": gen.pdb_text([dna]), "args": ["--ff=CHARMM"]})
     rna = [a for a in gen.nucleic("ACGU", "R") if not (a["res_index"] == 1 and a["name"] == "O2'")]
     jobs.append({"what": "RNA strand without O2' of 2", "text": gen.pdb_text([rna]), "args": ["--ff=AMBER"]})
+    # ... and as deposited today: phosphate oxygens named OP1 / OP2 on every nucleotide type, thymidine inside the strand and at its end
+    v3 = lambda at: [dict(a, name={"O1P": "OP1", "O2P": "OP2"}.get(a["name"], a["name"])) for a in at]
+    jobs.append({"what": "DNA strand ATCGT, OP1/OP2 names", "text": gen.pdb_text([v3(gen.nucleic("ATCGT", "D"))]), "args": ["--ff=AMBER"]})
+    jobs.append({"what": "DNA strand GTTA, OP1/OP2 names, no moves allowed", "text": gen.pdb_text([v3(gen.nucleic("GTTA", "D"))]),
+                 "args": ["--ff=TYL06", "--nodebump", "--noopt"]})
+    jobs.append({"what": "RNA strand UGCA, OP1/OP2 names", "text": gen.pdb_text([v3(gen.nucleic("UGCA", "R"))]), "args": ["--ff=AMBER"]})
     jobs.append({"what": "protein and DNA", "args": ["--ff=AMBER"],
                  "text": gen.pdb_text([gen.peptide(["ALA", "LYS", "SER"]), gen.nucleic("GC", "D", origin=(30.0, 0, 0)), gen.water((15, 5, 5), resseq=301)])})
     # three copies of one peptide under one chain identifier (a homo-oligomer written without distinct ids), and without any id / TER
